@@ -43,6 +43,7 @@ def tasks(tier, seed):
     for sk, gk in F.t3_shards(1, 1, F.T3_KINDS_QUICK): t.append(('fam', ('t3', 1, sk, gk), 0, 1, tier, seed))
     if tier == 'thorough':
         for sk, gk in F.t3_shards(0, 2, F.T3_KINDS_QUICK): t.append(('fam', ('t3', 2, sk, gk), 0, 1, tier, seed))
+        t = F.slice_t3_tasks(t, 300)
     return t
 
 
